@@ -806,6 +806,13 @@ def run(ctx, prog):
              'with both canonical components missing the repair insert is %s (version-0 edges: %d)' % (
                  'reachable for an entry that mirrors a canonical version: a delete that completed while the drain held the entry is undone' if not ok_del
                  else 'reachable only for an entry whose token version is 0', len(v0_e)))
+    # the same for a PARTIAL canonical state (F21): the two canonical reads are separate calls, so a delete (or insert) that completes between them shows one
+    # component present and the other missing; only an entry with token version 0 may be repaired, whatever the two reads returned
+    r_any = rc.reach([0], avoid_edges=v0_e)
+    ok_part = bool(ci) and bool(v0_e) and all(c.bb not in r_any for c in ci)
+    ctx.inst('C04.R5', rc.short, 'a partial canonical state is not repaired from a mirror of a canonical version either', ok_part,
+             'the repair insert is %s' % ('reachable without the version-0 edge: a delete / insert completing between the two canonical reads is undone / overwritten by the drain'
+                                          if not ok_part else 'reachable only across a version == 0 edge (%d)' % len(v0_e)))
     # … and that repair is the ONLY canonical mutation a drain performs. Census by effect, not by name: every call in the function (and its closures) whose callee may,
     # transitively, take the canonical document store exclusively or append to the log must be one of the repair inserts decided above. Anything else — "healing" the
     # canonical metadata from the mirror, deleting what the mirror no longer has — makes the mirror's content durable and visible to reads: a drain then changes what
